@@ -90,6 +90,13 @@ CONTEXTS = {
     "exists-body": (False, lambda e: _m(edge_labels=[("guard", "exists (q : int[0,1]) %s == q" % e)])),
     "sum-body": (False, lambda e: _m(edge_labels=[("guard", "(sum (q : int[0,1]) %s) >= 0" % e)])),
     "assert": (False, lambda e: _m(decl_extra="void af() { assert(%s >= 0); }" % e)),
+    # quantified bodies are side-effect free even where the surrounding context may write
+    "sum-body-in-update": (False, lambda e: _m(edge_labels=[("assignment", "h = sum (q : int[0,1]) %s" % e)])),
+    "forall-body-in-update": (False, lambda e: _m(decl_extra="bool qb;", edge_labels=[("assignment", "qb = forall (q : int[0,1]) %s >= q" % e)])),
+    "exists-body-in-update": (False, lambda e: _m(decl_extra="bool qb;", edge_labels=[("assignment", "qb = exists (q : int[0,1]) %s == q" % e)])),
+    "sum-body-in-function": (False, lambda e: _m(decl_extra="int sf() { int t; t = sum (q : int[0,1]) %s; return t; }" % e)),
+    "forall-body-in-function": (False, lambda e: _m(decl_extra="bool ff() { return forall (q : int[0,1]) %s >= q; }" % e)),
+    "sum-body-in-function-return": (False, lambda e: _m(decl_extra="int sf2() { return sum (q : int[0,2]) (%s + q); }" % e)),
     "probability": (False, None),   # built specially (branchpoint)
 }
 
